@@ -7,9 +7,10 @@ for p in $(cat claimed.txt); do ./check $p > out/cov_$p.log 2>&1; echo "$p $(tai
 bd=$(ls -td out/build/*_cov | head -1)
 python3 - "$bd" <<'PY'
 import sys,os,subprocess,json,glob,re
-bd=sys.argv[1]
+bd=os.path.abspath(sys.argv[1])
 cov={}
-for od in glob.glob(os.path.join(bd,'obj_*')):
+# library objects and harness translation units (several harnesses #include library sources directly)
+for od in glob.glob(os.path.join(bd,'obj_*')) + [bd]:
     gcnos=glob.glob(os.path.join(od,'*.gcno'))
     for g in gcnos:
         r=subprocess.run(['gcov','-n','-o',od,g],capture_output=True,text=True,cwd=od)
@@ -19,7 +20,9 @@ for od in glob.glob(os.path.join(bd,'obj_*')):
             if m: cur=m.group(1); continue
             m=re.match(r"Lines executed:([0-9.]+)% of (\d+)",line)
             if m and cur and cur.startswith('/repo/'):
-                cov[cur[len('/repo/'):]]=(float(m.group(1)),int(m.group(2))); cur=None
+                k=cur[len('/repo/'):]; v=(float(m.group(1)),int(m.group(2)))
+                if k not in cov or v[0]>cov[k][0]: cov[k]=v
+                cur=None
 props=[json.loads(l) for l in open('properties.jsonl')]
 out=[]
 for p in props:
